@@ -152,6 +152,8 @@ def fit_cases(tier, seed):
                                 continue
                             seen.add((nm, ft))
                             cases.append(dict(base, name=nm, feat=ft))
+                        if kind == "joint" and dimgiven == "dimension" and noise in (None, "gaussian-scalar"):
+                            cases.append(dict(base, name=kind, feat="plain", ne=2))
                         if seed != 0 and noise is None and dimgiven == "dimension":
                             cases.append(dict(base, name=kind, feat="plain", seed=int(seed)))
                         # the same object calibrated, used (trajectories computed), then calibrated again
@@ -185,6 +187,9 @@ def hand_cases(tier, seed):
                                         continue  # a dictionary can only name the kind
                                     cases.append(dict(src="hand", kind=kind, dim=dim, ns=ns, noise=noise, variant=variant,
                                                       name=nm, feat=ft, via=via))
+                                    if kind == "joint" and variant == 0 and ft == "plain" and nm in (kind, "my-model"):
+                                        cases.append(dict(src="hand", kind=kind, dim=dim, ns=ns, noise=noise, variant=variant,
+                                                          name=nm, feat=ft, via=via, ne=2))
                                     if nm == kind and ft == "plain" and (thorough or variant in (0, 3)):
                                         for update in UPDATES:
                                             cases.append(dict(src="hand", kind=kind, dim=dim, ns=ns, noise=noise,
@@ -321,7 +326,7 @@ def hyper_kwargs(case):
     elif dg == "features":
         kw["features"] = list(features_of(case))
     if kind == "joint":
-        kw["nb_events"] = 1
+        kw["nb_events"] = int(case.get("ne", 1))
     if kind == "mixture_logistic":
         kw["n_clusters"] = 2
     return kw
@@ -339,12 +344,24 @@ def hand_parameters(case):
             return x * HAND_SCALE
         d["parameters"] = {k: scale(v) for k, v in d["parameters"].items()}
     d["features"] = features_of(case)
+    ne = int(case.get("ne", 1))
+    if case["kind"] == "joint" and ne != 1:
+        # competing events: a NON-default value of the hyperparameter nb_events (a value equal to the default cannot show
+        # whether it survives a save / load), one Weibull shape / scale per event and one column of zeta per event
+        p = d["parameters"]
+        d["nb_events"] = ne
+        p["log_rho_mean"] = [round(p["log_rho_mean"][0] - 0.3 * e, 6) for e in range(ne)]
+        p["n_log_nu_mean"] = [round(p["n_log_nu_mean"][0] - 0.2 * e, 6) for e in range(ne)]
+        if case["ns"]:
+            p["zeta_mean"] = [[round(0.05 * (j + 1) * (-1) ** (j + e), 6) for e in range(ne)] for j in range(case["ns"])]
     return d
 
 
 def fit_frame(case):
     dim = case["dim"]
     df = cohort_frame(IDS, dim, joint=case["kind"] == "joint", binary=case["noise"] == "bernoulli")
+    if case["kind"] == "joint" and int(case.get("ne", 1)) == 2:
+        df["EVENT_BOOL"] = [{"a": 0, "b": 1, "c": 2, "d": 0, "e": 2}[i] for i in df["ID"]]  # two competing events
     feats = features_of(case)
     return df.rename(columns={f"Y{i}": feats[i] for i in range(dim)})
 
